@@ -39,6 +39,11 @@ class Codec:
         return out
 
 
+def streams_good(k, i):
+    import streams
+    return streams.good_operand(k, i)
+
+
 def json_texts(g, tier):
     """(rule text, data text) pairs: valid and invalid JSON"""
     vals = []
@@ -111,6 +116,28 @@ def run_c18(ex, g, tier):
                 texts.append(("{\"var\":-1}", "\"" + "a" * (base + off - 1) + unit * 3 + "\""))
         texts.append(("{\"substr\":[{\"var\":\"\"},-2]}", "\"" + unit * 9000 + "\""))
     texts += [("{\"var\":-1}", big), ("{\"var\":\"n\"}", bigs), ("{\"var\":\"1.0\"}", "[\"" + "y" * 2200000 + "\"]")]
+    # diff-guided: sizes, characters and strings named in the changed source lines steer document sizes / padding / contents
+    import diffguide
+    hh = diffguide.hints()
+    for n_ in hh.get("ints", []):
+        if 16 <= n_ <= 3000000:
+            for unit in ("é", "😀"):
+                for off in range(-5, 3):
+                    texts.append(("{\"var\":-1}", "\"" + "a" * max(0, n_ + off - 1) + unit * 2 + "\""))
+            texts.append(("{\"var\":\"n\"}", json.dumps({"k": "x" * n_, "n": 5}))); texts.append(("{\"var\":-1}", "[" + ",".join("1" for _ in range(min(n_, 500000))) + "]"))
+    for c_ in hh.get("chars", []) + [s_ for s_ in hh.get("strs", []) if len(s_) <= 3]:
+        if "\x00" in c_: continue
+        for body in ("{\"a\":1}", "1", "[1,2]", "\"s\""):
+            texts += [("{\"var\":\"\"}", c_ + body), ("{\"var\":\"\"}", body + c_), (c_ + body, "null"), (body + c_, "null")]
+        texts += [("{\"var\":\"\"}", json.dumps("x" + c_ + "y", ensure_ascii=False)), ("{\"var\":" + json.dumps("k" + c_, ensure_ascii=False) + "}", json.dumps({"k" + c_: 1, "k": 2}, ensure_ascii=False)),
+                  ("{\"var\":2}", json.dumps("x" + c_ + "y", ensure_ascii=False)), ("{\"cat\":[{\"var\":\"\"}," + json.dumps(c_, ensure_ascii=False) + "]}", json.dumps(c_ * 3, ensure_ascii=False))]
+    for sv in hh.get("strs", []):
+        if "\x00" in sv: continue
+        texts += [("{\"var\":" + json.dumps(sv, ensure_ascii=False) + "}", json.dumps({sv: 1}, ensure_ascii=False)), (json.dumps({sv: [1, 2]}, ensure_ascii=False), "null"), ("{\"var\":\"\"}", json.dumps(sv, ensure_ascii=False)),
+                  (json.dumps({"missing_some": [1, [sv, "b"]]}, ensure_ascii=False), json.dumps({sv: 1, "c": 3}, ensure_ascii=False))]
+    for k_ in gen.ALLOPS:      # every operator once through the three data modes, on data it reads
+        texts.append((json.dumps({k_: [streams_good(k_, 0), streams_good(k_, 1)]}), json.dumps({"a": 1, "c": 3})))
+        texts.append((json.dumps({"if": [{k_: [streams_good(k_, 0), streams_good(k_, 1)]}, "T", "F"]}), json.dumps({"a": 1, "c": 3})))
     pr = codec.parse_many([t[0] for t in texts]); pd = codec.parse_many([t[1] for t in texts])
     idx = [i for i in range(len(texts)) if pr[i].startswith("ok ") and pd[i].startswith("ok ")]
     ev = codec.model_eval([(pr[i][3:], pd[i][3:]) for i in idx])
@@ -277,6 +304,18 @@ def run_c19(ex, g, tier):
             tasks += [dict(kind="apply", value=rule, data=sdat), dict(kind="apply", value=sdat, data=None), dict(kind="apply", value=rule, data=sdat, ser=True)]
     for pad in ("\n", " ", "\t", "\r\n  "):
         tasks += [dict(kind="ser", value=pad + "{\"var\": \"a\"}", data="{\"a\": 1}"), dict(kind="ser", value="{\"var\": \"a\"}" + pad, data=pad + "{\"a\": 1}" + pad), dict(kind="ser", value=pad + "[1]" + pad)]
+    import diffguide
+    hh = diffguide.hints()
+    for sv in hh.get("strs", []) + hh.get("chars", []):
+        for t_ in (dict(kind="apply", value={"var": sv}, data={sv: 1}), dict(kind="apply", value={"var": ""}, data=sv), dict(kind="apply", value={sv: [1, 2]}), dict(kind="apply", value={"cat": [sv, sv]}, ser=True),
+                   dict(kind="ser", value=sv + "{\"var\":\"a\"}", data="{\"a\":1}"), dict(kind="ser", value="{\"var\":\"a\"}" + sv, data="{\"a\":1}"), dict(kind="ser", value="{\"var\":\"a\"}", data=sv + "{\"a\":1}"),
+                   dict(kind="ser", value=json.dumps(sv)), dict(kind="apply", value=sv, data=None), dict(kind="apply", value={"!!": [{"var": ""}]}, data=sv)):
+            tasks.append(t_)
+    for n_ in hh.get("ints", []):
+        if n_ <= 300000:
+            for m_ in (n_ - 1, n_, n_ + 1):
+                tasks += [dict(kind="apply", value={"var": ""}, data="é" * m_), dict(kind="apply", value={"+": ["x" * m_, 1]}), dict(kind="apply", value={"+": ["x" + "я" * m_, 1]}), dict(kind="apply", value={"cat": [1] * min(m_, 20000)}),
+                          dict(kind="ser", value="{\"var\":\"\"}", data="\"" + "я" * m_ + "\""), dict(kind="apply", value={"var": "a"}, data={"a": m_}), dict(kind="apply", value=m_), dict(kind="apply", value={"==": ["z" * m_]})]
     for bad in ["", "{", "nul", "1 2", "{\"a\":1} trailing", "NaN", "[1,]", "{\"var\":\"a\"} {\"var\":\"b\"}", "1e400", "\"\\ud83d\""]:
         tasks += [dict(kind="ser", value=bad, data="null"), dict(kind="ser", value="{\"var\":\"\"}", data=bad), dict(kind="ser", value=bad), dict(kind="ser", value="1", data=bad, de=True)]
     # expected, from the model
